@@ -231,25 +231,33 @@ def sib(ctx, facts):
         tail = nf.strip(body["expr"]) if "expr" in body else None
         if tail is not None and tail["k"] == "Tup":
             tail = nf.strip(tail["es"][0])
-        if tail is None or tail["k"] != "Path" or "local" not in tail["res"]:
-            ctx.violation("SIB", fid, "cannot-establish", hirq.loc(fn), "the estimate returned is not a named local")
+        if tail is None:
+            ctx.violation("SIB", fid, "cannot-establish", hirq.loc(fn), "the function has no tail expression")
             return
-        card = def_exprs(fn, tail["res"]["name"])
-        if len(card) != 1:
-            ctx.violation("SIB", fid, "cannot-establish", hirq.loc(fn), "the estimate has %d definitions" % len(card))
-            return
+        if tail["k"] == "Path" and "local" in tail["res"]:
+            card = def_exprs(fn, tail["res"]["name"])
+            if len(card) != 1:
+                ctx.violation("SIB", fid, "cannot-establish", hirq.loc(fn), "the estimate has %d definitions" % len(card))
+                return
+        else:
+            card = [tail]          # the closed form is returned directly
         cnf = nf.nf(card[0], casts=True, alias=ALIAS)
         # the sum variable
         sums = {}
-        for x in hirq.walk(card[0]):
-            if x["k"] == "Path" and "local" in x["res"]:
-                ds = def_exprs(fn, x["res"]["name"])
-                if len(ds) == 1:
-                    sf = _sum_form(ds[0])
-                    if sf:
-                        sums[x["res"]["name"]] = sf
-                elif len(ds) == 2:
-                    sf = _loop_sum_form(fn, x["res"]["name"], ds)
+        work, seen = [card[0]], set()
+        while work:
+            e_ = work.pop()
+            for x in hirq.walk(e_):
+                if x["k"] == "Path" and "local" in x["res"] and x["res"]["name"] not in seen:
+                    seen.add(x["res"]["name"])
+                    ds = def_exprs(fn, x["res"]["name"])
+                    sf = None
+                    if len(ds) == 1:
+                        sf = _sum_form(ds[0])
+                        if not sf and len(seen) < 12:
+                            work.append(ds[0])       # a named part of the closed form (`let denominator = a * lnb * sumbk`)
+                    elif len(ds) == 2:
+                        sf = _loop_sum_form(fn, x["res"]["name"], ds)
                     if sf:
                         sums[x["res"]["name"]] = sf
         if len(sums) != 1:
